@@ -89,8 +89,11 @@ def main(run):
                 rng.shuffle(pool)
                 # every single-fault script (each position x kind) first, then longer ones
                 singles = [s_ for s_ in pool if len(s_[0]) == 1]
-                longer = [s_ for s_ in pool if len(s_[0]) > 1]
-                take = singles + longer[:10 if quick else 400]
+                # 1 .. budget consecutive faults of one kind at one position ("every number of consecutive faults")
+                runs = [s_ for s_ in pool if 1 < len(s_[0]) <= budget and len({(p_, k_) for _, p_, k_ in s_[0]}) == 1
+                        and [a_ for a_, _, _ in s_[0]] == list(range(1, len(s_[0]) + 1))]
+                longer = [s_ for s_ in pool if len(s_[0]) > 1 and s_ not in runs]
+                take = singles + runs + longer[:10 if quick else 400]
                 for i, (script, predicted) in enumerate(take):
                     o = run_one(adapter, op, script, payload, root, '%s%d' % (op, i))
                     nf = len(script)
